@@ -9,7 +9,9 @@ import (
 	"os"
 	"runtime"
 	"strconv"
+	"strings"
 	"sync"
+	"sync/atomic"
 	"time"
 
 	"github.com/jamespfennell/gtfs"
@@ -237,10 +239,81 @@ func RunSchedule(id string, c Case) Record {
 	return rec
 }
 
+var brokenStatic = func() [][]byte {
+	var out [][]byte
+	for _, drop := range []string{"routes.txt", "stop_times.txt", "transfers.txt:empty"} {
+		files := map[string]string{}
+		for k, v := range sess.StaticFiles["static-a"] {
+			files[k] = v
+		}
+		if name, ok := strings.CutSuffix(drop, ":empty"); ok {
+			files[name] = ""
+		} else {
+			delete(files, drop)
+		}
+		out = append(out, sess.ZipOf(files))
+	}
+	return out
+}()
+
+var staticHung, hungValid atomic.Bool
+
+// failingStaticCalls parses two of the broken archives (which two depends on the goroutine) and returns the error texts.
+func failingStaticCalls(w int) string {
+	var texts []string
+	for k := 0; k < 2; k++ {
+		if staticHung.Load() {
+			texts = append(texts, "not run (an earlier call hangs)")
+			continue
+		}
+		b := brokenStatic[(w+k)%len(brokenStatic)]
+		done := make(chan string, 1)
+		go func() {
+			defer func() {
+				if r := recover(); r != nil {
+					done <- fmt.Sprint("panic: ", r)
+				}
+			}()
+			_, err := gtfs.ParseStatic(append([]byte(nil), b...), gtfs.ParseStaticOptions{})
+			done <- fmt.Sprint(err)
+		}()
+		select {
+		case t := <-done:
+			texts = append(texts, t)
+		case <-time.After(20 * time.Second):
+			staticHung.Store(true)
+			texts = append(texts, "hang: ParseStatic did not return within 20s")
+		}
+	}
+	return strings.Join(texts, " | ")
+}
+
+var failingRefs = map[int]string{}
+var failingRefsMu sync.Mutex
+
+// failingStaticReference is what the same two calls return when nothing else runs. These few calls are made before
+// the first concurrent run (they take the error path only).
+func failingStaticReference(w int) string {
+	failingRefsMu.Lock()
+	defer failingRefsMu.Unlock()
+	if len(failingRefs) == 0 {
+		for key := 0; key < len(brokenStatic); key++ {
+			var texts []string
+			for k := 0; k < 2; k++ {
+				_, err := gtfs.ParseStatic(append([]byte(nil), brokenStatic[(key+k)%len(brokenStatic)]...), gtfs.ParseStaticOptions{})
+				texts = append(texts, fmt.Sprint(err))
+			}
+			failingRefs[key] = strings.Join(texts, " | ")
+		}
+	}
+	return failingRefs[w%len(brokenStatic)]
+}
+
 // RunRace runs G goroutines per topology member, R times, without gates (for the race detector), then lets
 // every goroutine walk and hash every result, and runs concurrent ParseStatic calls on a shared buffer.
 func RunRace(id string, c Case, g, reps int) Record {
 	rec := Record{G: "race", Case: id}
+	failingStaticReference(0)
 	fmt.Fprintf(os.Stderr, "TOPOLOGY %s\n", id)
 	for rep := 0; rep < reps; rep++ {
 		opts, inputs, _ := objects(c.Topo)
@@ -251,6 +324,7 @@ func RunRace(id string, c Case, g, reps int) Record {
 		statics := make([]*gtfs.Static, total)
 		extra := make([]string, total)
 		staticBuf := append([]byte(nil), sess.Inputs["static-a"]...)
+		failing := make([]string, total) // what the calls on broken archives returned, per goroutine
 		var wg sync.WaitGroup
 		start := make(chan struct{})
 		for w := 0; w < total; w++ {
@@ -267,10 +341,27 @@ func RunRace(id string, c Case, g, reps int) Record {
 					extra[w] = alt[(w/n)%len(alt)]
 				}
 				results[w].Res, results[w].Err, parsed[w] = parseSafely(in, opts[i])
-				func() {
-					defer func() { recover() }()
-					statics[w], _ = gtfs.ParseStatic(staticBuf, gtfs.ParseStaticOptions{InheritWheelchairBoarding: w%2 == 0})
-				}()
+				if !staticHung.Load() { // under a watchdog: a call that never returns must not stop the run
+					done := make(chan *gtfs.Static, 1)
+					go func() {
+						defer func() {
+							if recover() != nil {
+								done <- nil
+							}
+						}()
+						st, _ := gtfs.ParseStatic(staticBuf, gtfs.ParseStaticOptions{InheritWheelchairBoarding: w%2 == 0})
+						done <- st
+					}()
+					select {
+					case statics[w] = <-done:
+					case <-time.After(30 * time.Second):
+						staticHung.Store(true)
+						hungValid.Store(true)
+					}
+				}
+				// calls that fail (a required file missing, a member without a header), two different ways per goroutine:
+				// an error belongs to the call that returned it, and failing calls release whatever they hold
+				failing[w] = failingStaticCalls(w)
 			}()
 		}
 		close(start)
@@ -306,6 +397,18 @@ func RunRace(id string, c Case, g, reps int) Record {
 			}()
 		}
 		wg2.Wait()
+		if hungValid.Load() {
+			rec.Runs = append(rec.Runs, RunRec{Proc: 1, Res: "hang: ParseStatic of a valid archive did not return within 30s", Alone: "returns"})
+			hungValid.Store(false)
+		}
+		wantFailing := ""
+		for w := 0; w < total; w++ {
+			if failing[w] != failingStaticReference(w) {
+				wantFailing = failingStaticReference(w)
+				rec.Runs = append(rec.Runs, RunRec{Proc: w%n + 1, Res: "static errors: " + failing[w], Alone: "static errors: " + wantFailing})
+				break
+			}
+		}
 		if rep == 0 {
 			for w := 0; w < total; w++ {
 				name := inputFor(c.Topo[w%n].Kind)
